@@ -130,9 +130,14 @@ func Judge6(rq Req6, reps []Rep6) []Finding {
 	if err != nil {
 		return out // codec accepted something the minimal parser does not: not classified
 	}
+	if len(layers) > 0 && layers[0].Type == 13 {
+		// the datagram itself is a RELAY-REPL: not a supported type, whatever it encloses
+		add("answered-unsupported-type", "a datagram of type RELAY-REPL (enclosing a message) was answered")
+		return out
+	}
 	for _, l := range layers {
 		if l.Type != 12 {
-			return out // relay chains containing Relay-Reply layers: no-crash only
+			return out // Relay-Forward chains with a Relay-Reply layer further in: no-crash only
 		}
 	}
 	q, err := pkt.ParseMsg6(inner)
